@@ -179,3 +179,41 @@ def written_header_locates(vc):
 # single-request contract (time grid, clock advance, source sum), discharged again here.
 from . import c10 as _C10
 contract('C07', 'stream_time_axis_is_contiguous_across_requests', functions=['setigen.voltage.data_stream:DataStream.get_samples', 'setigen.voltage.data_stream:DataStream._update_t'])(_C10.single_request)
+
+
+@contract('C07', 'written_header_locates_channels_for_arrays', functions=[C4.BK + '._header_populate_configuration', C4.BK + '.__init__'])
+def written_header_locates_array(vc):
+    """The same for a backend on an antenna array (OBSNCHAN then counts the channels of all antennas, OBSBW still spans one antenna's band)."""
+    nant = 2 + vc.choose(2, 'num_antennas')
+    npol = 1 + vc.choose(2, 'num_pols')
+    asc = bool(vc.choose(2, 'ascending'))
+    sr, fch1 = Real('sample_rate'), Real('fch1')
+    vc.assume(sr > 0)
+    src = vc.interp.call(classref(vc, 'setigen.voltage.antenna:MultiAntennaArray'), [], dict(num_antennas=nant, sample_rate=sr, fch1=fch1, ascending=asc, num_pols=npol,
+                                                                                         delays=[0] * nant, t_start=0, seed=Int('seed')))
+    taps, nb = Int('num_taps'), Int('num_branches')
+    sc, nc, M = Int('start_chan'), Int('num_chans'), Int('windows')
+    vc.assume(And(taps >= 1, nb >= 2, nb % 2 == 0, sc >= 0, nc >= 1, sc + nc <= nb // 2, M >= 1))
+    dig = vc.interp.call(classref(vc, 'setigen.voltage.quantization:RealQuantizer'), [], dict(target_fwhm=Real('dig_fwhm'), num_bits=8))
+    fb = mkobj(vc, 'setigen.voltage.polyphase_filterbank:PolyphaseFilterbank', num_taps=taps, num_branches=nb, window=symbolic_array('h', (taps * nb,)), window_fn='hamming',
+               cache=None, channelized_stds=None)
+    fb.partial = False
+    rq = vc.interp.call(classref(vc, 'setigen.voltage.quantization:ComplexQuantizer'), [], dict(target_fwhm=Real('rq_fwhm'), num_bits=8))
+    be = vc.interp.call(classref(vc, C4.BK), [src, dig, fb, rq], dict(start_chan=sc, num_chans=nc, block_size=M * taps * nant * nc * 2 * npol))
+    be.fields['obs_length'] = Real('obs_length')
+    be.fields['num_blocks'] = Int('num_blocks')
+    vc.assume(And(Real('obs_length') > 0, Int('num_blocks') >= 1))
+    out = vc.call(C4.BK + '._header_populate_configuration', be, {})
+    vc.cover('reachable')
+    vc.ensure('C07/written-header/array/exc/none', out.ok)
+    if not out.ok:
+        return
+    hd = out.value
+    cbw = (1 if asc else -1) * sr / nb
+    c = Int('c')
+    centre = hd['OBSFREQ'] - hd['OBSBW'] / 2 + (c + Fraction(1, 2)) * hd['CHAN_BW']
+    vc.ensure('C07/written-header/array/post/channel-c-centred-at-fch1+(start_chan+c)*chan_bw', eq(centre * 10 ** 6, fch1 + (sc + c) * cbw))
+    vc.ensure('C07/written-header/array/post/OBSBW-spans-one-antenna-band-OBSNCHAN-counts-all-antennas', And(eq(hd['OBSBW'] * 10 ** 6, nc * cbw), eq(hd['OBSNCHAN'], nc * nant), eq(hd['NANTS'], nant)))
+# ... and of the antenna that stacks the streams: its own clock (the one reset_start() pushes back into the streams at the start of every
+# recording) advances with its streams for 1 and 2 polarisations - C10's antenna contract, discharged again here
+contract('C07', 'antenna_clock_follows_its_streams', functions=[_C10.ANT + '.get_samples', _C10.ANT + '.reset_start'])(_C10.antenna)
